@@ -493,6 +493,10 @@ impl G {
     // S views: `sus` / `tra` over `aw <rid>` leaves (resources = `ares` lines over signals, completed by `resolve`),
     // nested in each other, under Show / Either / rows and around them; observed at idle points (every op runs the
     // executor to idle).  A `<Transition>` sits at a fixed place (no branch or row above it) over fixed structure.
+    // An `aw` leaf lives exactly as long as its boundary: no branch or row BETWEEN a boundary and its leaves (branches
+    // and rows below a boundary start without a boundary of their own, so they get leaves only below a new one).  A leaf
+    // that goes away while its boundary stays is F-C04-5 (props/C04.known): the resource keeps the boundary's
+    // `SuspenseContext` registered for one more fetch.
 
     fn sleaf(&mut self, nres: usize, in_b: bool, in_row: bool) -> ViewD {
         if in_b && self.r.chance(1, 2) {
@@ -524,13 +528,13 @@ impl G {
             11 | 12 if !only_fixed => {
                 let c = self.cond_expr();
                 let c = if in_row && self.r.chance(1, 2) { Expr::Add(Box::new(c), Box::new(Expr::Key)) } else { c };
-                let (a, b) = (self.sview(depth - 1, nres, in_b, false, false, false), self.sview(depth - 1, nres, in_b, false, false, false));
+                let (a, b) = (self.sview(depth - 1, nres, false, false, false, false), self.sview(depth - 1, nres, false, false, false, false));
                 if self.r.chance(1, 2) { ViewD::Show(c, Box::new(a), Box::new(b)) } else { ViewD::Either(c, Box::new(a), Box::new(b)) }
             }
             13 | 14 if !only_fixed && !in_row => {
                 let lists = self.xlists();
                 let sel = self.dyn_expr();
-                let row = self.sview(depth - 1, nres, in_b, false, false, true);
+                let row = self.sview(depth - 1, nres, false, false, false, true);
                 ViewD::Elem("ul", vec![], Box::new(ViewD::ForR(sel, lists, Box::new(row))))
             }
             _ => ViewD::Sus(Box::new(ViewD::Seq(
